@@ -66,6 +66,14 @@ PROPS = {
                      "SIGTERM with connections open; oracles: accounted heap, peer count, open descriptors, armed timers and live blocks equal the idle "
                      "baseline after close-all, nothing open/allocated after exit, exit status 0, descriptor-hygiene monitor silent, sanitizers silent. "
                      "Non-trivial = >=3 connections, >=1 abnormal end or junk input, and >=1 routed request (timer) existed; distinct = scenario hash."),
+    "C05": scen("c05", ["default"],
+                quick=dict(cases=1500, size=60), thorough=dict(cases=40000, size=100, budget_s=3000),
+                rule="rapidcheck-generated histories in which peers on raw, local-socket and WebSocket transports own elements, hold fetches and are caller or "
+                     "owner of routed requests, and then end: EOF, hang-up or reset, alone or in the same event batch as other traffic, after a truncated "
+                     "length prefix / message / WebSocket frame, or dropped by the daemon for invalid JSON, an over-long message or a WebSocket protocol "
+                     "violation; the other peers' transcripts are compared with the reference model (remove events, shutdown errors, nothing else), the "
+                     "descriptor-hygiene monitor and the sanitizers watch the released connection. Non-trivial = the ending peer owned an element with "
+                     "effects, or had a routed request in either role; distinct = scenario hash."),
 }
 
 def plan_workers(spec, tier, nproc):
